@@ -139,10 +139,10 @@ impl TplLitTypeItem {
             TplLitTypeItem::OneOf(vs) => {
                 let mut vs = vs.iter().collect::<Vec<_>>();
                 vs.sort();
+                // an empty string constant is an alternative that matches nothing more: `(|(a))`
                 let vs = vs
                     .into_iter()
                     .map(|it| it.regex_expr())
-                    .filter(|it| !it.is_empty())
                     .collect::<Vec<_>>();
                 let vs = vs.join("|");
                 format!("({})", vs)
